@@ -140,6 +140,17 @@ func init() {
 	reg(&HarnessSpec{Prop: "C14", Name: "C17Selection",
 		What:   "for C14's 'never reports success while dropping a converter-interface method': on skeleton sel every method of every selected converter interface - incl. the methods an interface has by EMBEDDING an interface declared in a sibling file - yields a function (see C17Selection)",
 		Bounds: "skeleton sel", Assumes: []string{aT, aSlots}})
+	reg(&HarnessSpec{Prop: "C04", Name: "C19IdentMatchers",
+		What:   "for C04's name match: Options.CompareFieldName - the comparison every destination/source field pair goes through - is equality under the exact rule and Unicode simple case folding under :case:off, for all names over the alphabet (incl. fold partners of different UTF-8 length and letters whose lower-case forms differ although they fold together) (see C19IdentMatchers)",
+		Bounds: "as C19IdentMatchers", Assumes: []string{"as C19IdentMatchers"}})
+	for _, pr := range []string{"C09", "C06", "C05"} {
+		reg(&HarnessSpec{Prop: pr, Name: "C09CrossMethod", Replay: "native",
+			What:   "real front half on skeleton cross (three methods in two converter interfaces copying between the same types, each with a notation from its own menu - none, :skip, :literal or :map on a member of the nested struct): every function treats the nested struct according to ITS method's notation alone - copied whole without one, member by member with the notation applied otherwise - whatever the methods built before it in the same run were told (no state of one method's build reaches another's)",
+			Bounds: "skeleton cross, 4x3x2 slot choices", Assumes: []string{aT, aSlots}})
+	}
+	reg(&HarnessSpec{Prop: "C06", Name: "C09Scoping",
+		What:   "for C06's ':skip never assigned / the first explicit notation supplies the source': the :skip, :map, :conv and :literal lists of every method hold exactly what its own doc comment wrote, in order - never another method's entries, never an entry lost to another method's (shared backing arrays), whatever the interface's doc comment holds, incl. :skip lines there (which the README does not give a meaning at interface level) (see C09Scoping)",
+		Bounds: "as C09Scoping", Assumes: []string{aT, aSlots}})
 	reg(&HarnessSpec{Prop: "C09", Name: "C17Selection",
 		What:   "for C09's scoping: a method the converter interface has by embedding an unmarked interface of the same file carries exactly the notations of its own doc comment on top of the CONVERTER interface's defaults; the notations on the embedded interface's doc comment (and the package comment's) are nobody's defaults (see C17Selection)",
 		Bounds: "skeleton sel", Assumes: []string{aT, aSlots}})
